@@ -11,6 +11,7 @@
 //!   cw  [n, pseed, h, shards, via]
 //!   ps  [n, pseed, rg, per, t, p]    rg = 0: ironbeam's writer; rg > 0: parquet writer with that max row-group size
 //!   gl  [fmt, h, pat, files, pseed]  files = [[[component..], count]..]; count -1 = a directory
+//!   jf  [k]                          the float k as f64 (|k| < 2^53, exact) through JSONL, CSV, Parquet
 use ibv::{Emitter, SplitMix64, Tier, drive, ok};
 use ironbeam::io::csv::build_csv_shards;
 use ironbeam::io::jsonl::build_jsonl_shards;
@@ -356,6 +357,21 @@ fn run(kind: &str, input: &Value) -> Value {
                 Err(_) => json!(["panic"]),
             }
         }
+        "jf" => {
+            let k = input[0].as_i64().unwrap();
+            let f = k as f64;
+            let data = vec![Rec { id: 0, s: String::new(), i: 0, u: 0, f, t: String::new() }];
+            let (pj, pc, pp) = (sc.p("f.jsonl"), sc.p("f.csv"), sc.p("f.parquet"));
+            ironbeam::helpers::jsonl::write_jsonl_vec(&pj, &data).unwrap();
+            write_csv_vec(&pc, true, &data).unwrap();
+            write_parquet_vec(&pp, &data).unwrap();
+            let exact = |v: Vec<Rec>| v.len() == 1 && v[0].f.to_bits() == f.to_bits();
+            ok(json!([
+                exact(read_jsonl_vec::<Rec>(&pj).unwrap()),
+                exact(read_csv_vec::<Rec>(&pc, true).unwrap()),
+                exact(read_parquet_vec::<Rec>(&pp).unwrap())
+            ]))
+        }
         _ => json!(["bad-kind"]),
     }
 }
@@ -571,6 +587,26 @@ fn generate(seed: u64, tier: Tier, em: &mut Emitter) {
         }
         let nt = files.len() >= 2;
         em.case("gl", json!([fmt, rng.chance(1, 2), pat, files, rng.below(1 << 20)]), nt, &["random", "glob"]);
+    }
+    // 6. integer-valued floats through every format (serde_json's default float parser is not
+    //    correctly rounded above 2^53 / 10 significand digits: see the known finding)
+    let p53: i64 = 1 << 53;
+    let mut ks: Vec<i64> = vec![0, 1, -1, p53 - 1, -(p53 - 1), p53 - 2, p53 - 3, 1 << 52, (1 << 52) + 1,
+        1_801_439_850_948_199, 1_801_439_850_948_197, 1_801_439_850_948_198, 1_801_439_850_948_201,
+        1_000_000_000_000_000, 999_999_999_999_999, 1_000_000_000_000_001, 900_719_925_474_099, 900_719_925_474_101,
+        3_602_879_701_896_397, 3_602_879_701_896_399, 7_205_759_403_792_793, 7_205_759_403_792_795];
+    let nf = if thorough { 3000 } else { 250 };
+    for i in 0..nf {
+        let k = match i % 4 {
+            0 => rng.range(0, 1 << 50),
+            1 => rng.range(1 << 50, p53 - 1),
+            2 => rng.range(1_801_439_850_948_000, p53 - 1) | 1,
+            _ => -rng.range(0, p53 - 1),
+        };
+        ks.push(k);
+    }
+    for k in ks {
+        em.case("jf", json!([k]), k.abs() > 1, &["float", "jsonl-float"]);
     }
 }
 
